@@ -194,3 +194,86 @@ Proof.
   exists (map (answer t) (filter needs_reply es)). repeat split; [exact H | apply answers_length | apply answers_ids |].
   apply Forall_forall. intros r Hr. apply in_map_iff in Hr. destruct Hr as (e & <- & _). apply answer_not_parse.
 Qed.
+
+(* ---- the size gate *)
+Lemma http_gate_decoded_bounded limit need n f :
+  http_gate limit need n f = GDecoded ->
+  need <= limit /\ need <= n /\ (forall d, f = FDeclared d -> d <= limit /\ need <= d).
+Proof.
+  unfold http_gate, http_gate_gen. destruct f as [d|].
+  - destruct (limit <? d) eqn:Ed; [discriminate|]. apply Z.ltb_ge in Ed.
+    destruct (need <=? Z.min (Z.min d n) limit) eqn:En; [|discriminate]. apply Z.leb_le in En.
+    intros _. split; [lia|]. split; [lia|]. intros d' Hd. inversion Hd; subst d'. lia.
+  - destruct (need <=? Z.min n limit) eqn:En; [|discriminate]. apply Z.leb_le in En.
+    intros _. split; [lia|]. split; [lia|]. intros d' Hd. discriminate.
+Qed.
+
+Lemma http_gate_oversized_never_decoded limit need n f : limit < need -> http_gate limit need n f <> GDecoded.
+Proof. intros Hl Hg. apply http_gate_decoded_bounded in Hg. lia. Qed.
+
+Lemma http_gate_declared_too_large_refused limit need n d : limit < d -> http_gate limit need n (FDeclared d) = GRefused.
+Proof. intros Hd. unfold http_gate, http_gate_gen. apply Z.ltb_lt in Hd. rewrite Hd. reflexivity. Qed.
+
+(* a body within the bound: the honest framings give the same decision, and a complete document is decoded *)
+Lemma http_gate_framing_independent limit need n :
+  n <= limit ->
+  http_gate limit need n (FDeclared n) = http_gate limit need n FUndeclared /\
+  (need <= n -> http_gate limit need n FUndeclared = GDecoded).
+Proof.
+  intros Hn. unfold http_gate, http_gate_gen.
+  assert (E : limit <? n = false) by (apply Z.ltb_ge; lia). rewrite E.
+  replace (Z.min (Z.min n n) limit) with (Z.min n limit) by lia.
+  split; [reflexivity|]. intros Hneed.
+  assert (E2 : need <=? Z.min n limit = true) by (apply Z.leb_le; lia). rewrite E2. reflexivity.
+Qed.
+
+(* without the reader in front of the decoder a document of any length is decoded when no length is declared *)
+Lemma http_gate_unlimited_body_refuted :
+  exists need n, http_body_limit < need /\ http_gate_unlimited_body http_body_limit need n FUndeclared = GDecoded.
+Proof. exists (http_body_limit + 1), (http_body_limit + 1). split; [lia|]. vm_compute. reflexivity. Qed.
+
+Lemma ws_gate_from_decoded_bounded limit need frames : forall cum,
+  ws_gate_from limit need cum frames = GDecoded -> need <= limit.
+Proof.
+  induction frames as [|f r IH]; intros cum H; cbn [ws_gate_from] in H; [discriminate|].
+  destruct (limit <? cum + f) eqn:El; [discriminate|]. apply Z.ltb_ge in El.
+  destruct (need <=? cum + f) eqn:En.
+  - apply Z.leb_le in En. lia.
+  - eapply IH. exact H.
+Qed.
+
+Lemma ws_gate_decoded_bounded limit need frames : ws_gate limit need frames = GDecoded -> need <= limit.
+Proof. unfold ws_gate. apply ws_gate_from_decoded_bounded. Qed.
+
+Fixpoint zsum (l : list Z) : Z := match l with [] => 0 | x :: r => x + zsum r end.
+
+Lemma zsum_nonneg l : (forall f, In f l -> 0 <= f) -> 0 <= zsum l.
+Proof.
+  induction l as [|x r IH]; intros H; cbn [zsum]; [lia|].
+  assert (0 <= x) by (apply H; left; reflexivity).
+  assert (0 <= zsum r) by (apply IH; intros f Hf; apply H; right; exact Hf). lia.
+Qed.
+
+Lemma ws_gate_from_within_limit limit need frames : forall cum,
+  (forall f, In f frames -> 0 <= f) -> cum < need -> need <= cum + zsum frames -> cum + zsum frames <= limit ->
+  ws_gate_from limit need cum frames = GDecoded.
+Proof.
+  induction frames as [|f r IH]; intros cum Hpos Hc Hn Hl; cbn [zsum] in *; [lia|].
+  cbn [ws_gate_from].
+  assert (Hf : 0 <= f) by (apply Hpos; left; reflexivity).
+  assert (Hr : 0 <= zsum r) by (apply zsum_nonneg; intros x Hx; apply Hpos; right; exact Hx).
+  assert (El : limit <? cum + f = false) by (apply Z.ltb_ge; lia). rewrite El.
+  destruct (need <=? cum + f) eqn:En; [reflexivity|]. apply Z.leb_gt in En.
+  apply IH; [intros x Hx; apply Hpos; right; exact Hx | lia | lia | lia].
+Qed.
+
+(* a message within the bound whose document is complete is decoded however it is cut into frames *)
+Lemma ws_gate_within_limit limit need frames :
+  (forall f, In f frames -> 0 <= f) -> 0 < need <= zsum frames -> zsum frames <= limit ->
+  ws_gate limit need frames = GDecoded.
+Proof. intros Hpos [Hn1 Hn2] Hl. unfold ws_gate. apply ws_gate_from_within_limit; [exact Hpos | lia | lia | lia]. Qed.
+
+(* a frame that takes the message over the bound before the document has ended: refused, whatever follows *)
+Lemma ws_gate_from_oversized limit need frames : forall cum,
+  limit < need -> ws_gate_from limit need cum frames <> GDecoded.
+Proof. intros cum Hl H. apply ws_gate_from_decoded_bounded in H. lia. Qed.
